@@ -45,7 +45,7 @@ type RunConfig struct {
 func defaultConfig(tier string) *RunConfig {
 	c := &RunConfig{
 		Tier: tier, MaxInstrs: 20_000_000, MaxDecisions: 4000, MaxConcretize: 70, MaxThreads: 8, MaxPreempt: 2,
-		MaxAlloc: 1 << 22, MaxPaths: 200000, TimeoutMs: 10000, Workers: 8, SolverBin: defaultSolver(), SamplePaths: 8,
+		MaxAlloc: 1 << 22, MaxPaths: 200000, TimeoutMs: 30000, Workers: 8, SolverBin: defaultSolver(), SamplePaths: 8,
 	}
 	if tier == "thorough" {
 		c.TimeoutMs = 60000
